@@ -34,6 +34,13 @@ def evn(name):
 
 def label(e):
     k = e[1]
+    if k in ("is_set", "set", "clear", "wait_now", "wait_block", "wait_ret"):
+        try:
+            evn(e[2])
+        except (ValueError, TypeError, AttributeError):
+            # an event object the model does not know (code that synchronises through something of its own): the operation is
+            # kept as one the model has no place for - the trace is then not accepted, but the monitors still see the rest
+            return "LOther"
     if k == "is_set":
         return f"(LIsSet {evn(e[2])} {cb(e[3])})"
     if k == "set":
